@@ -4,25 +4,83 @@ def H(name, clause, kind="bounded", tier="quick", timeout=600, replay=True, cove
     d.update(kw)
     return d
 
-TABLE = "labels from {a=1,a=2,b=1,''='',e'=e'} (repeats allowed), names from {'k','','e'k'}"
+T = "labels drawn by symbolic indices from {a=1, a=2, b=1, ''='', e'=e'} (repeats allowed), key names from {'k', '', e'}"
+STUB = "generate_key_hash's KeyHasher (AHash) swapped for the recording hasher via kani::stub"
+LISTS = "concrete lists: k[], ''[e'=e'], e'[a=2,a=1], k[b=1,''=''], k[a=1,a=1,b=1], ''[e'=e',a=2,''=''], k[8 labels with repeats]"
 
 PLAN = {
     "property": "C03",
     "level": "model_checking",
-    "manifest": {"technique": "Kani/CBMC bounded", "text": "draft", "note": "draft"},
-    "min_obligations": {"quick": 0, "thorough": 0},
-    "assumptions": [],
+    "manifest": {
+        "technique": "Kani/CBMC bounded model checking of the real Key::{eq,cmp,hash,get_hash,clone,constructors} (label count <= 3 and = 8, label/name content from a 5-entry table incl. repeated names, repeated labels, empty and non-ASCII strings) + rely/guarantee stubs of the std atomics for the get_hash() memo",
+        "text": "On the real code compiled by Kani: (1) a == b <=> a.cmp(b) == Equal, symmetry/duality, reflexivity, transitivity and antisymmetry on triples, a == b => identical sequence of Hasher::write* calls (recording hasher), label-order independence for pairwise distinct names -- all for keys whose labels are chosen by symbolic indices from a small table, label count <= 2 (quick) / = 3 and = 8 (thorough); (2) construction-path independence: each of 11 construction paths (from_parts with owned / Arc strings, from_static_labels, from_name + with_extra_labels, split with_extra_labels, clone before/after memoisation, From<(N,L)>, IntoLabels for Iter, into_parts round trip, with_extra_labels(empty)) yields byte-identical name and label list, a memo that satisfies hashed => hash == H(name, labels), and (thorough) ==/cmp/Hash agreement with the all-static key, on a fixed set of concrete label lists; (3) get_hash() under arbitrary interference by other threads running the same first-use code returns the deterministic hash, publishes hash before hashed, and a racing Key::clone never carries hashed == true with a stale hash (loop-free => all SC interleavings).  Everything decisive for (1)-(2) is bounded => model_checking, not proof.  KNOWN RESULT: obligation c03_eq_iff_cmp fails on the unmodified tree (2 labels with the same name: eq is multiset equality, cmp stable-sorts by label name only); see proposed_fix.diff.",
+        "note": "Bounds: label count <= 3 and exactly 8 (one layout family), 5-entry label table, 3 key names, strings <= 2 bytes; triples only for exactly 1 or 2 labels. AHash itself is executed only on concrete static keys (c03_get_hash_real); elsewhere the hasher is swapped for a recorder (key_hasher_impl is generic in the hasher). Path harnesses use concrete label content (the heap-backed Vec<Label> paths exceed CBMC's memory with symbolic content); that eq/cmp/hash depend on content only follows from Cow's fields being private to cow.rs plus property C14. SC atomics assumed; Hashable for Key (metrics-util) is checked on one concrete key (thorough tier).",
+    },
+    "min_obligations": {"quick": 2, "thorough": 2},
+    "assumptions": [
+        "bounded: " + T + "; label count <= 2 (quick), = 3 and = 8 (thorough); nothing is claimed for other label counts or other strings",
+        "Hash output is observed as the exact sequence of Hasher::write/write_u8/write_usize calls made into a recording hasher; equal sequences give equal output for every deterministic Hasher (KeyHasher::default() = AHasher with fixed keys, default-features = false)",
+        STUB + " in the c03_paths_* harnesses (AHash on symbolic or heap data exceeds 12 GB in CBMC); the real AHash is run only on concrete static keys in c03_get_hash_real",
+        "construction-path harnesses use concrete label content (" + LISTS + "); eq/cmp/hash cannot observe how a Cow is stored because Cow's fields are private to cow.rs (Rust privacy) and Cow reads back its content exactly (property C14)",
+        "get_hash memo: sequentially consistent atomics; other threads execute only Key::get_hash / Key::clone on the shared key (the only code that touches the two atomics); generate_key_hash is a deterministic function of the immutable (name, labels) -- modelled as an arbitrary constant h, incl. h == 0",
+        "Hashable for Key (metrics-util/src/common.rs): checked on one concrete key in the thorough tier (c03_hashable); for other keys by inspection (the body is `self.get_hash()`)",
+        "panic = failure; CBMC pointer checks are on but memory safety of Cow is property C14's subject",
+    ],
     "kani": [{
         "crate": "metrics",
         "parallel": 4,
         "modules": [
             {"file": "metrics/src/key.rs", "mod": "__verif_c03", "src": "key.kani.rs"},
         ],
-        "functions": [],
+        "functions": [
+            {"item": "<Key as PartialEq>::eq", "file": "metrics/src/key.rs"},
+            {"item": "<Key as Ord>::cmp, <Key as PartialOrd>::partial_cmp", "file": "metrics/src/key.rs"},
+            {"item": "<Key as Hash>::hash, key_hasher_impl, generate_key_hash", "file": "metrics/src/key.rs"},
+            {"item": "Key::get_hash, <Key as Clone>::clone", "file": "metrics/src/key.rs"},
+            {"item": "Key::{from_name, from_parts, from_static_labels, from_static_name, from_static_parts, builder, with_extra_labels, into_parts, labels, name}, From<(N, L)> for Key", "file": "metrics/src/key.rs"},
+            {"item": "Label::{new, from_static_parts, key, value}, derived Eq/Ord/Hash for Label, IntoLabels impls", "file": "metrics/src/label.rs"},
+        ],
         "harnesses": [
-            H("c03_eq_iff_cmp", "a == b <=> a.cmp(b) == Equal", bound="n<=2; " + TABLE, covers=2),
-            H("c03_eq_hash", "a == b => same Hash stream", bound="n<=2; " + TABLE, covers=2),
-            H("c03_probe_gethash", "probe", bound="n<=2"),
+            # ---- quick
+            H("c03_eq_iff_cmp", "a == b <=> a.cmp(b) == Equal (and partial_cmp == Some(cmp))", bound="label count <= 2 each; " + T, covers=2),
+            H("c03_eq_hash", "a == b => identical sequence of Hasher::write* calls", bound="label count <= 2 each; " + T, covers=2),
+            H("c03_symmetry", "(a == b) == (b == a) and a.cmp(b) == b.cmp(a).reverse()", bound="label count <= 2 each; " + T, covers=2),
+            H("c03_reflexive", "a == a, a.cmp(a) == Equal, Hash stream reproducible", bound="label count <= 3; " + T, covers=1),
+            H("c03_order_triples", "<= transitive, == transitive, (a <= b and b <= a) => a == b", bound="three keys, exactly 2 labels each, one shared name; " + T, covers=2),
+            H("c03_label_order", "pairwise distinct label names => swapping the labels gives an equal key (==, cmp, Hash stream)", bound="2 labels; " + T, covers=1),
+            H("c03_get_hash_real", "real AHash: get_hash() == generate_key_hash == std Hash through a fresh KeyHasher, stable, clone keeps it, label order irrelevant", bound="one concrete 2-label static key and its reversal"),
+            H("c03_paths_quick_a", "from_parts (owned / Arc strings), from_static_labels, from_name+with_extra_labels: same name bytes, same label list, memo == H(name, labels), get_hash() == H(name, labels)", bound="concrete key e'[a=2,a=1]; " + STUB, replay=False, covers=2, sub="stubbed"),
+            H("c03_paths_quick_b", "from_parts+with_extra_labels (split), clone before / after memoisation: same content, memo invariant, get_hash() == H(name, labels)", bound="concrete key e'[a=2,a=1]; " + STUB, replay=False, covers=2, sub="stubbed"),
+            H("c03_get_hash_memo_rg", "first get_hash() racing with any prefix of the other threads' {hash.store(h); hashed.store(true)} returns h; own stores publish h, hash before hashed; second call returns h", kind="rely-guarantee", replay=False, covers=3, sub="rg"),
+            H("c03_clone_race_rg", "Key::clone racing with other threads' first get_hash(): never (hashed, stale hash); the clone's get_hash() is h; clone == original", kind="rely-guarantee", replay=False, covers=3, sub="rg"),
+            # ---- thorough
+            H("c03_eq_iff_cmp_n3", "a == b <=> a.cmp(b) == Equal", bound="exactly 3 labels each; " + T, covers=2, tier="thorough", timeout=900),
+            H("c03_eq_hash_n3", "a == b => identical Hash stream", bound="exactly 3 labels each; " + T, covers=2, tier="thorough", timeout=900),
+            H("c03_symmetry_n3", "== symmetric, cmp dual", bound="exactly 3 labels each; " + T, covers=2, tier="thorough", timeout=900),
+            H("c03_label_order_n3", "pairwise distinct names => every permutation of 3 labels gives an equal key", bound="3 labels, 5 non-identity permutations; " + T, covers=1, tier="thorough", timeout=900),
+            H("c03_order_triples_names", "order axioms on triples whose key names differ", bound="three keys, exactly 1 label each; " + T, covers=2, tier="thorough", timeout=900),
+            H("c03_vec_path_n8", "the n >= 8 (Vec) arms: eq <=> cmp Equal, cmp dual, eq => same Hash stream, layout independence for distinct names", bound="8 labels: 6 fixed + 2 slots from {a=1,a=2,b=1}; second key in 3 layouts (same / reversed / rotated)", covers=2, tier="thorough", timeout=900),
+            H("c03_paths_a", "paths 0-3 end to end: ==, cmp Equal, same Hash stream, same get_hash() as the all-static key", bound="concrete key e'[a=2,a=1]; " + STUB, replay=False, covers=2, sub="stubbed", tier="thorough", timeout=900),
+            H("c03_paths_b", "paths 4-7 end to end", bound="concrete key e'[a=2,a=1]; " + STUB, replay=False, covers=2, sub="stubbed", tier="thorough", timeout=900),
+            H("c03_paths_c", "paths 8-10 (IntoLabels for Iter, into_parts round trip, with_extra_labels(empty)) end to end", bound="concrete key e'[a=2,a=1]; " + STUB, replay=False, covers=2, sub="stubbed", tier="thorough", timeout=900),
+            H("c03_paths_n01", "all 11 paths end to end for 0 and 1 label", bound="concrete keys k[] and ''[e'=e']; " + STUB, replay=False, covers=2, sub="stubbed", tier="thorough", timeout=900),
+            H("c03_paths_n2_distinct", "all 11 paths: content + memo invariant", bound="concrete key k[b=1,''='']; " + STUB, replay=False, covers=2, sub="stubbed", tier="thorough", timeout=900),
+            H("c03_paths_n3_a", "paths 0-3: content + memo invariant, 3 labels", bound="concrete keys k[a=1,a=1,b=1], ''[e'=e',a=2,''='']; " + STUB, replay=False, covers=2, sub="stubbed", tier="thorough", timeout=900),
+            H("c03_paths_n3_b", "paths 5-7: content + memo invariant, 3 labels", bound="concrete keys k[a=1,a=1,b=1], ''[e'=e',a=2,''='']; " + STUB, replay=False, covers=2, sub="stubbed", tier="thorough", timeout=900),
+            H("c03_paths_n8_a", "paths 0-3: content + memo invariant, 8 labels (Vec arm of key_hasher_impl)", bound="one concrete 8-label key with repeats; " + STUB, replay=False, covers=2, sub="stubbed", tier="thorough", timeout=900),
+            H("c03_paths_n8_b", "paths 5-6 (clone): content + memo invariant, 8 labels", bound="one concrete 8-label key with repeats; " + STUB, replay=False, covers=2, sub="stubbed", tier="thorough", timeout=900),
+        ],
+    }, {
+        "crate": "metrics-util",
+        "parallel": 1,
+        "modules": [
+            {"file": "metrics-util/src/common.rs", "mod": "__verif_c03_hashable", "src": "hashable.kani.rs"},
+        ],
+        "functions": [
+            {"item": "<Key as Hashable>::hashable", "file": "metrics-util/src/common.rs"},
+        ],
+        "harnesses": [
+            H("c03_hashable", "Hashable::hashable(key) == key.get_hash() == std Hash through Hashable::Hasher; equal keys give equal values", bound="one concrete 2-label static key and its reversal; real AHash", tier="thorough", timeout=900),
         ],
     }],
 }
